@@ -295,8 +295,8 @@ class PrecipitateModel (PrecipitateBase):
         if self.numberOfElements == 1:
             self.pData.xEqAlpha[self.pData.n], self.pData.xEqBeta[self.pData.n] = self._createLookupBinary(self.pData.temperature[self.pData.n])
         else:
-            self.PSDXalpha = [None for p in range(len(self.phases))]
-            self.PSDXbeta = [None for p in range(len(self.phases))]
+            self.PSDXalpha = [np.zeros((self.PBM[p].bins + 1, self.numberOfElements)) for p in range(len(self.phases))]
+            self.PSDXbeta = [np.zeros((self.PBM[p].bins + 1, self.numberOfElements)) for p in range(len(self.phases))]
 
             #Set first index of eq composition
             for p in range(len(self.phases)):
@@ -309,6 +309,8 @@ class PrecipitateModel (PrecipitateBase):
 
         x = [self.PBM[p].PSD for p in range(len(self.phases))]
         Y = self._calcNucleationRate(self.pData.time[self.pData.n], x, Y)
+        #No growth rate has been calculated yet, start from 0 in case the first calculation gives no result
+        self.growth = [np.zeros(self.PBM[p].bins + 1) for p in range(len(self.phases))]
         self.growth, Y = self._growthRate(Y)
         self.pData.setSlice(Y, self.pData.n)
     
@@ -599,6 +601,8 @@ class PrecipitateModel (PrecipitateBase):
             #Also revert the PSD in case this function was called to adjust for the new PSD bins
             else:
                 growthRate = self.growth[p]
+                xEqAlpha = Y.xEqAlpha[0,p]
+                xEqBeta = Y.xEqBeta[0,p]
         else:
             growth, xAlpha, xBeta, xEqAlpha, xEqBeta = growth_result
             #Update interfacial composition for each precipitate size
